@@ -133,6 +133,19 @@ CHECKS = {
         "views from basic indexing, jnp results fresh) are modelled; flax serialization and XLA determinism are assumed.",
         technique="contract-based deductive verification: frame obligations (syntactic checker + symbolic alias execution); bounded native resume harness as stand-in",
     ),
+    "C03": dict(
+        text=("The acceptance gate is verified bit-precisely (z3 FloatingPoint float32, round-nearest-even, XLA-CPU flush-to-zero "
+              "modelled) on the real nested _skip/_select_preconditioner closures of the pmap, quantized-pmap and pjit paths "
+              "(free variable inverse_failure_threshold bound to an arbitrary non-NaN float32) and on the selection statements of "
+              "sharded_update_fn extracted mechanically: for all 2^64 (error, threshold) pairs incl. NaN/Inf/-0/subnormals and "
+              "arbitrary bit patterns of the old and new root, the stored value is bitwise old or bitwise new, and it differs from "
+              "old only if error is not NaN and error < threshold; on non-refresh steps (error = threshold) the old root is kept "
+              "(pins >=). Loop-free over the full domain: a complete proof of the gate. Slot bookkeeping is C13-P3; range analysis "
+              "of the root routines (finiteness of the update) is not claimed."),
+        design="7/C03",
+        note=TB + " Float model: SMT-LIB FloatingPoint with one NaN; FTZ/DAZ applied to operands and results; lax.cond = select with both branches traced.",
+        technique="contract-based deductive verification: bit-precise QF_FP postconditions on the real closures / extracted statements, z3",
+    ),
 }
 
 NA_REASON = "check not built yet (build in progress); the planned contract kernel is described in DESIGN.md section 7"
